@@ -29,18 +29,18 @@ Proof.
 Qed.
 
 (* with no time threshold and every call taking a tick: dropping the unstorable records = limit 1024 *)
-Lemma filter_recs0 lim : forall k d, positive k ->
+Lemma filter_recs0 lim : forall k d,
   filter storable (recs 0 lim d k) = recs 0 (N.min lim 1024) d k.
 Proof.
-  induction k as [a t0 t1 kids IH] using call_ind'. intros d [Hlt Hk].
+  induction k as [a t0 t1 kids IH] using call_ind'. intros d.
   cbn [recs].
   assert (E2 : (0 <=? t1 - t0) = true) by (apply N.leb_le; lia). rewrite E2. cbn [orb].
   assert (KS : forall d', filter storable (flat_map (recs 0 lim d') kids) =
                           flat_map (recs 0 (N.min lim 1024) d') kids).
-  { intro d'. apply filter_flat_map. clear Hlt E2. revert Hk.
-    induction IH as [|k r Hk' _ IHr]; intros Hk; constructor.
-    - apply Hk'. apply Hk.
-    - apply IHr. apply Hk. }
+  { intro d'. apply filter_flat_map. clear E2.
+    induction IH as [|k r Hk' _ IHr]; constructor.
+    - apply Hk'.
+    - apply IHr. }
   destruct (lim <=? d) eqn:L.
   - apply N.leb_le in L. assert (M : (N.min lim 1024 <=? d) = true) by (apply N.leb_le; lia).
     rewrite M. reflexivity.
@@ -57,32 +57,32 @@ Proof.
       rewrite S0, filter_app_one, S0, KS, app_nil_r. apply recs_none_list. lia.
 Qed.
 
-Lemma filter_recs0_forest lim d f : all_positive f ->
+Lemma filter_recs0_forest lim d f :
   filter storable (flat_map (recs 0 lim d) f) = flat_map (recs 0 (N.min lim 1024) d) f.
 Proof.
-  intro HP. apply filter_flat_map. induction f as [|k r IH]; constructor.
-  - apply filter_recs0. apply HP.
-  - apply IH. apply HP.
+  apply filter_flat_map. induction f as [|k r IH]; constructor.
+  - apply filter_recs0.
+  - apply IH.
 Qed.
 
 (* -pg / fentry / PLT shape: any -D gd, any --max-stack ms, any forest *)
-Theorem deep_calls_dropped gd ms f : all_timed f -> all_positive f ->
+Theorem deep_calls_dropped gd ms f : all_timed f ->
   filter storable (out (fst (exec (plain 0 gd ms PG) (flat_forest f) (init, [])))) =
   flat_map (recs 0 (N.min (N.min gd ms) 1024) 0) f.
-Proof. intros HT HP. rewrite run_forest' by assumption. apply filter_recs0_forest. exact HP. Qed.
+Proof. intros HT. rewrite run_forest' by assumption. apply filter_recs0_forest. Qed.
 
 (* -finstrument-functions / XRay shape *)
-Theorem deep_calls_dropped_cyg gd ms f : ms <= gd -> all_timed f -> all_positive f ->
+Theorem deep_calls_dropped_cyg gd ms f : ms <= gd -> all_timed f ->
   filter storable (out (fst (exec (plain 0 gd ms CYG) (flat_forest f) (init, [])))) =
   flat_map (recs 0 (N.min ms 1024) 0) f.
-Proof. intros Hm HT HP. rewrite run_forest_cyg by assumption. apply filter_recs0_forest. exact HP. Qed.
+Proof. intros Hm HT. rewrite run_forest_cyg by assumption. apply filter_recs0_forest. Qed.
 
 (* what the readers decode of it *)
-Theorem deep_calls_on_disk gd ms f : all_timed f -> all_positive f ->
+Theorem deep_calls_on_disk gd ms f : all_timed f ->
   Forall (fun r => r_addr r < 281474976710656) (out (fst (exec (plain 0 gd ms PG) (flat_forest f) (init, [])))) ->
   disk (out (fst (exec (plain 0 gd ms PG) (flat_forest f) (init, [])))) =
   map ideal (flat_map (recs 0 (N.min (N.min gd ms) 1024) 0) f).
-Proof. intros HT HP HA. rewrite disk_exact by exact HA. rewrite deep_calls_dropped by assumption. reflexivity. Qed.
+Proof. intros HT HA. rewrite disk_exact by exact HA. rewrite deep_calls_dropped by assumption. reflexivity. Qed.
 
 (* non-vacuity: a chain 1026 deep under --max-stack=2000: 1024 calls stay, two are dropped *)
 Fixpoint chain (n : nat) (t0 t1 : N) : list call :=
